@@ -42,7 +42,10 @@ def execute(plan):
       run.step += 1
       run.cur_op = ['drain', r.id]
       from scales.message import MethodReturnMessage
-      r.stack.AsyncProcessResponseMessage(MethodReturnMessage('ok'))
+      try:
+        r.stack.AsyncProcessResponseMessage(MethodReturnMessage('ok'))
+      except Exception as e:
+        run.raised('completing request %d on %r' % (r.id, r.channel), e)
       settle()
       run.after_step()
     flags = run.flags
